@@ -438,6 +438,16 @@ func checkConc(c concCase) *verdict {
 				default:
 				}
 				got := set.Healthy()
+				hasNil := false
+				for _, h := range got {
+					if h == nil {
+						hasNil = true
+					}
+				}
+				if hasNil {
+					report(&verdict{"concurrent-never-member", "Healthy() reports <nil> which was never added (a snapshot a reader holds is being modified in place)"})
+					return
+				}
 				for i := range got {
 					if i > 0 && got[i-1].Addr >= got[i].Addr {
 						report(&verdict{"concurrent-not-sorted", fmt.Sprintf("Healthy() = %v", names(got))})
